@@ -565,8 +565,8 @@ static cJSON_bool print_number(const cJSON * const item, printbuffer * const out
         /* Try 15 decimal places of precision to avoid nonsignificant nonzero digits */
         length = sprintf((char*)number_buffer, "%1.15g", d);
 
-        /* Check whether the original double can be recovered */
-        if ((sscanf((char*)number_buffer, "%lg", &test) != 1) || !compare_double((double)test, d))
+        /* Check whether the original double can be recovered exactly (bit for bit, not only up to an epsilon) */
+        if ((sscanf((char*)number_buffer, "%lg", &test) != 1) || (memcmp(&test, &d, sizeof(d)) != 0))
         {
             /* If not, print with 17 decimal places of precision */
             length = sprintf((char*)number_buffer, "%1.17g", d);
